@@ -1,0 +1,10 @@
+//go:build verif
+
+package vaxis
+
+// Hooks for the verification harness under /verif. Compiled only with
+// `-tags verif`; they add entry points to unexported functions and change no
+// behaviour.
+
+// VerifAsIndex exposes Color.asIndex.
+func VerifAsIndex(c Color) Color { return c.asIndex() }
